@@ -139,7 +139,9 @@ fn main() {
             "query" => vec![querystream::query_line(&mut rng, maxvars, maxops)],
             "ser" => serstream::ser_lines(&mut rng, idx, maxvars, maxops),
             "ffi" => {
-                if idx % 3 == 2 {
+                if idx % 12 == 11 {
+                    vec![ffistream::ffi_wide_line(&mut rng)]
+                } else if idx % 3 == 2 {
                     vec![fficnf::ffi_cnf_line(&mut rng, maxvars)]
                 } else {
                     vec![ffistream::ffi_line(&mut rng, maxvars, maxops)]
